@@ -248,3 +248,90 @@ Theorem C19_source_MetadataWithSLO_is_the_model : forall (c : md_config) (now : 
   G_MetadataWithSLO c now validity_hours = PVal (res_some (metadata_with_slo c now validity_hours)).
 Proof. exact G_MetadataWithSLO_is_model. Qed.
 Print Assumptions C19_source_MetadataWithSLO_is_the_model.
+
+(* ---- last clause of C19: the metadata "serialises to well-formed metadata XML that parses back to the same values".
+   [marshal_descriptor] is the model of encoding/xml.Marshal (Marshal.v: a generic interpreter of struct-tag schemas) run on
+   the schema of the marshalled types that gen/ extracts from /repo's types/metadata.go and goxmldsig on every run
+   (Generated.metadata_schema / metadata_omitempty); the C19 check compares its bytes with the real xml.Marshal on every
+   descriptor it generates.  Lemmas: P_Marshal.v. ---- *)
+From V Require Import Xml Schema Marshal SamlSchema P_Build P_Marshal.
+
+(* WELL-FORMED, for every descriptor Metadata() / MetadataWithSLO() return (every configuration, clock, hour count, every
+   string) whose validUntil lies in the years 0..9999 (the range of time.Time.MarshalText): xml.Marshal succeeds; the
+   interpreter emits exactly the token stream of the hand-written SAML metadata document [descriptor_tree d] (element names,
+   xmlns declarations, attribute names and order, children order: Metadata.v); the bytes are [go_write] of that tree, i.e.
+   properly nested start / end tags with double-quoted attribute values, every value escaped by xml.EscapeText; all element
+   and attribute names are names; and the tokenizer of P_Build.v ([scan]) accepts the bytes and yields exactly the tokens of
+   the tree ([gtokens]: one start tag per element with its attributes in order, merged character data, matching end tag). *)
+Theorem C19_marshalled_metadata_well_formed : forall c now h d,
+  metadata c now = Ok d \/ metadata_with_slo c now h = Ok d ->
+  -62167219200 <= i_sec (ed_valid_until d) < 253402300800 ->
+  exists tree bytes,
+    descriptor_tree d = Some tree
+    /\ marshal_value metadata_schema metadata_omitempty "EntityDescriptor" (descriptor_gval d) = Ok (tree_mtoks tree)
+    /\ marshal_descriptor d = Ok bytes
+    /\ bytes = go_write tree
+    /\ gnames_ok tree = true
+    /\ scan bytes = Some (gtokens tree).
+Proof. exact marshalled_metadata_well_formed. Qed.
+Print Assumptions C19_marshalled_metadata_well_formed.
+
+(* outside those years there is no document: xml.Marshal returns time.Time.MarshalText's error (no panic, no bytes) *)
+Theorem C19_marshalled_metadata_year_out_of_range : forall c now h d,
+  metadata c now = Ok d \/ metadata_with_slo c now h = Ok d ->
+  marshal_text_utc (ed_valid_until d) = None ->
+  descriptor_tree d = None /\ marshal_descriptor d = Err (EOther "Time.MarshalText: year outside of range [0,9999]").
+Proof. exact marshalled_metadata_year_out_of_range. Qed.
+Print Assumptions C19_marshalled_metadata_year_out_of_range.
+
+(* PARSES BACK.  Premises: validUntil normalised and within years 0..9999; the three configured strings are strings XML can
+   carry ([valid_xml_text]: well-formed UTF-8, every character in the Char production #x9 | #xA | #xD | [#x20-#xD7FF] |
+   [#xE000-#xFFFD] | [#x10000-#x10FFFF]); the other strings of the descriptor are constants and base64 text.  Then: the
+   bytes tokenise to the tokens of the tree; what a conforming reader recovers from every escaped attribute value and
+   character datum (line-end normalisation of the raw text, then expansion of named / hexadecimal / decimal references) is
+   the value itself — so the reader holds the very tree ([reader_tree tree = tree]); U+000D needs no exception: EscapeText
+   writes it as &#xD; and a character reference is not normalised — and xml.Unmarshal of that document (Schema.v's
+   interpreter on the same generated schema, [unmarshal_parsed]) yields a value whose every field is the descriptor's:
+   entityID, validUntil as an instant to the nanosecond, both booleans, protocolSupportEnumeration, every KeyDescriptor (use,
+   certificate texts, encryption methods and digest methods in order), every endpoint (binding, location, index), the
+   presence of the SPSSODescriptor ([gval_descriptor g = d] is equality of the whole record). *)
+Theorem C19_marshalled_metadata_parses_back : forall c now h d,
+  metadata c now = Ok d \/ metadata_with_slo c now h = Ok d ->
+  0 <= i_nsec (ed_valid_until d) < 1000000000 ->
+  -62167219200 <= i_sec (ed_valid_until d) < 253402300800 ->
+  valid_xml_text (mc_issuer c) = true -> valid_xml_text (mc_acs_url c) = true -> valid_xml_text (mc_slo_url c) = true ->
+  exists tree bytes g,
+    descriptor_tree d = Some tree
+    /\ marshal_descriptor d = Ok bytes
+    /\ scan bytes = Some (gtokens tree)
+    /\ reader_tree tree = tree
+    /\ unmarshal_parsed metadata_schema "EntityDescriptor" tree = Ok g
+    /\ gval_descriptor g = d.
+Proof. exact marshalled_metadata_parses_back. Qed.
+Print Assumptions C19_marshalled_metadata_parses_back.
+
+(* what a reader recovers from xml.EscapeText's output, for every string XML can carry (the lemma behind
+   [reader_tree tree = tree]) *)
+Theorem C19_escaped_text_is_recovered : forall s, valid_xml_text s = true -> xml_read10 (go_escape s) = s.
+Proof. exact xml_read10_go_escape. Qed.
+Print Assumptions C19_escaped_text_is_recovered.
+
+(* the premise on strings is necessary: an entity ID containing U+0000 is marshalled without error and comes back as
+   U+FFFD (the harness observes the same with the real xml.Marshal / xml.Unmarshal: counted, not a violation — XML cannot
+   carry the string at all) *)
+Theorem C19_marshalled_metadata_uncarriable_string_refuted :
+  exists d tree bytes g,
+    ed_entity_id d = B [97; 0; 98]%N /\ valid_xml_text (ed_entity_id d) = false
+    /\ descriptor_tree d = Some tree /\ marshal_descriptor d = Ok bytes /\ bytes = go_write tree
+    /\ unmarshal_parsed metadata_schema "EntityDescriptor" (reader_tree tree) = Ok g
+    /\ ed_entity_id (gval_descriptor g) = ("a" ++ repl_char ++ "b")%string
+    /\ ed_entity_id (gval_descriptor g) <> ed_entity_id d.
+Proof. exact uncarriable_entity_id_not_preserved. Qed.
+Print Assumptions C19_marshalled_metadata_uncarriable_string_refuted.
+
+(* the struct-tag schema of the marshalled types (with omitempty) extracted from /repo on this run is the normative SAML
+   metadata table of SamlSchema.v: names, name spaces, attribute / element / chardata kinds, order, optional-on-output *)
+Theorem C19_marshal_schema_is_saml_metadata :
+  metadata_schema = saml_metadata_schema /\ metadata_omitempty = saml_metadata_omitempty.
+Proof. exact marshal_schema_is_saml_metadata. Qed.
+Print Assumptions C19_marshal_schema_is_saml_metadata.
